@@ -55,6 +55,9 @@ def run(ctx):
     check_completeness(ctx, ht, 'C03.1')
     check_sizes(ctx, ht, 'C03.4')
     check_footer(ctx, ht, 'C03.5')
+    ctx.rule('C03.8', 'version-dependent fields are decoded under their version gate; a re-stamped copy converts them')
+    if version_gated_fields(ctx, ht, 'C03.8') < 2:
+        raise AnalysisError('decodes of the sample-interval field (28:32): fewer than the 2 confirmed sites')
     check_pairing(ctx, 'C03.6')
     check_version(ctx, 'C03.7')
     ctx.floor('C03.1', 60, 'slot ranges')
@@ -290,7 +293,10 @@ def check_footer(ctx, ht, rule, select=lambda f: True):
                 return None
         # does the writer carry the source's version (copy of headerbytes, 72:76 untouched) or stamp its own?
         copies = copies_version(ht, f)
-        gates = (True, False) if copies else (True,)
+        # a writer that is itself a reader of a source file can gate its padding on the SOURCE's version: both
+        # outcomes of that gate are possible whatever version the output is stamped with
+        src_gated = any(FT.GATE_HINT in U(x) for x in FT._def_chain(f, call.args[0]) for x in [x])
+        gates = (True, False) if (copies or src_gated) else (True,)
         # a version test in an enclosing `if` of the write fixes the gate on that path
         encl_gate = None
         p, child = parent(call), call
@@ -309,10 +315,17 @@ def check_footer(ctx, ht, rule, select=lambda f: True):
             if v is None:
                 raise AnalysisError('cannot normalise the footer write `%s` in %s' % (U(call)[:80], f.qualname))
             forms[g] = v
-            if v != FA.reader_stride[g]:
-                which = 'files stamped newer than the padding gate' if g else 'files stamped at or below the padding gate'
+            # stride the reader of the OUTPUT derives: that of the source's version when the stamp is carried over,
+            # that of the writing library's (current, padded) version when the writer stamps its own
+            want = FA.reader_stride[g] if copies else FA.reader_stride[True]
+            if v != want:
+                if copies:
+                    which = 'files stamped newer than the padding gate' if g else 'files stamped at or below the padding gate'
+                else:
+                    which = ('sources newer than the padding gate' if g else 'sources at or below the padding gate') + \
+                        ' (the output is stamped with the current version)'
                 problems.append('for %s each array occupies %r bytes on disk but the reader steps by %r '
-                                '(L = 512*q + r is the array length)' % (which, v, FA.reader_stride[g]))
+                                '(L = 512*q + r is the array length)' % (which, v, want))
         label = '%s: %s' % (f.name, U(call)[:70])
         if problems:
             ctx.fail(rule, f, enclosing_stmt(call), 'footer stride mismatch%s: %s' % (
@@ -355,6 +368,48 @@ def copies_version(ht, f):
             if s.func is g and s.lo == 72:
                 stamped = True
     return copy and not stamped
+
+
+# ---------------------------------------------------------------------------
+UNIT_GATE = '0.1.6'
+
+
+def version_gated_fields(ctx, ht, rule, select=lambda f: True):
+    """The meaning of bytes 28:32 depends on the version stamped in 72:76 (milliseconds up to 0.1.6, microseconds
+    after).  (a) every decode of that field is unit-gated: the function compares file_version with the 0.1.6 gate, or
+    the decode sits on the 2D branch (2D files postdate the gate); (b) a writer that starts from a copy of a source
+    header and re-stamps 72:76 must also rewrite 28:32 (otherwise an old source keeps milliseconds under a stamp that
+    says microseconds)."""
+    P = ht.P
+    n = 0
+    for s in ht.loads:
+        if (s.lo, s.hi) != (28, 32) or not select(s.func):
+            continue
+        n += 1
+        f = s.func
+        gate = any(isinstance(c, ast.Compare) and FT.GATE_HINT in U(c) and UNIT_GATE in U(c) for c in ast.walk(f.node))
+        facts = ht.fm(f).facts_at(s.node) or frozenset()
+        on_2d = any((a[0] == 'T' and a[1].endswith('is_2d')) or (a[0] == 'F' and a[1].endswith('is_3d')) for a in facts)
+        if gate or on_2d:
+            ctx.ok(rule, f, s.stmt, 'sample-interval field decoded %s' % ('under the 0.1.6 unit gate' if gate else 'on the 2D branch'))
+        else:
+            ctx.fail(rule, f, s.stmt, 'bytes 28:32 (sample interval) are decoded without the version gate: files written by '
+                     '0.1.6 or earlier store milliseconds there, newer ones microseconds', line=getattr(s.node, 'lineno', None))
+    for f in {s.func for s in ht.stores if s.lo == 72}:
+        if not select(f):
+            continue
+        kinds = TB.header_buffers(P, f)
+        for s in [x for x in ht.stores if x.func is f and x.lo == 72]:
+            if kinds.get(s.buf) != 'copy':
+                continue
+            n += 1
+            if any(x.func is f and x.buf == s.buf and x.lo == 28 for x in ht.stores):
+                ctx.ok(rule, f, s.stmt, 're-stamped copy also rewrites the sample-interval field')
+            else:
+                ctx.fail(rule, f, s.stmt, 'the header is a copy of the source header whose version stamp (72:76) is replaced '
+                         'while bytes 28:32 keep the source convention: a source written by 0.1.6 or earlier (milliseconds) '
+                         'is then read with a 1000x finer sample interval')
+    return n
 
 
 # ---------------------------------------------------------------------------
